@@ -1,0 +1,26 @@
+//go:build verif
+
+// Contracts for the deductive verifier in /verif (comment-only file; compiled only with -tags verif).
+package icmp
+
+// ---------------------------------------------------------------------------------------------
+// C14: the JSON encoders emit the documented keys, each bound to its own field, in a fixed order
+//@ func easyjsonD3b49167EncodeGithubComVByteCpuSxPkgScanIcmp1
+//@   props C14
+//@   observe RawByte, RawString, Uint8
+//@   entry row object: [call RawByte(out, 123) ; call RawString(out, "\"type\":") ; call Uint8(out, in.Type) ; call RawString(out, ",\"code\":") ; call Uint8(out, in.Code) ; call RawByte(out, 125)] -> exit
+//@ func easyjsonD3b49167EncodeGithubComVByteCpuSxPkgScanIcmp
+//@   props C14
+//@   observe RawByte, RawString, String, Uint8, easyjsonD3b49167EncodeGithubComVByteCpuSxPkgScanIcmp1
+//@   entry row null:   [call RawByte(out, 123) ; call RawString(out, "\"scan\":") ; call String(out, in.ScanType) ; call RawString(out, ",\"ip\":") ; call String(out, in.IP) ;
+//@                      call RawString(out, ",\"ttl\":") ; call Uint8(out, in.TTL) ; call RawString(out, ",\"icmp\":") ; call RawString(out, "null") ; call RawByte(out, 125)] when in.ICMP == nil -> exit
+//@   entry row object: [call RawByte(out, 123) ; call RawString(out, "\"scan\":") ; call String(out, in.ScanType) ; call RawString(out, ",\"ip\":") ; call String(out, in.IP) ;
+//@                      call RawString(out, ",\"ttl\":") ; call Uint8(out, in.TTL) ; call RawString(out, ",\"icmp\":") ; call easyjsonD3b49167EncodeGithubComVByteCpuSxPkgScanIcmp1(out, bind_resp) ; call RawByte(out, 125)]
+//@                      when in.ICMP != nil && resp.Type == in.ICMP.Type && resp.Code == in.ICMP.Code -> exit
+//@ func (ScanResult).MarshalJSON
+//@   props C14
+//@   observe easyjsonD3b49167EncodeGithubComVByteCpuSxPkgScanIcmp, BuildBytes
+//@   entry row enc: [call easyjsonD3b49167EncodeGithubComVByteCpuSxPkgScanIcmp(bind_w, v) ; call BuildBytes(_, _) as (b)] when ret0 == b -> exit
+//@ func (*ScanResult).ID
+//@   props C14
+//@   ensures ret == r.IP
